@@ -8,8 +8,7 @@ use nalgebra::Isometry3;
 use parry3d::shape::TriMesh;
 use rayon::prelude::{IntoParallelRefIterator, ParallelIterator};
 use std::collections::{HashMap, HashSet};
-use parry3d::bounding_volume::{Aabb, BoundingVolume};
-use parry3d::math::Point;
+use parry3d::bounding_volume::BoundingVolume;
 
 /// Optional structure attached to the robot base joint. It has its own global transform
 /// that brings the robot to the location. This structure includes two transforms,
@@ -78,17 +77,12 @@ impl CollisionTask<'_> {
             } else {
                 (self.shape_j, self.transform_j, self.shape_i, self.transform_i)
             };            
-            // Small shape is simplified to aabb that is then enlarged. Large shape is used
-            // as is (it probably has a complex shape and would result in many false positives
-            // if similarly simplified            
+            // Small shape is simplified to aabb that is then enlarged. If the bounding box of the
+            // large shape (taken in the frame of the small one) does not overlap it, the shapes
+            // are more than r_min apart and the expensive distance query is not needed.
             let am_aaabb = sm_shape.local_aabb().loosened(r_min);
-            let sm_abb_mesh = build_trimesh_from_aabb(am_aaabb);
-            if !parry3d::query::intersection_test(
-                sm_transform,
-                &sm_abb_mesh,
-                bg_transform,
-                bg_shape,
-            ).expect(SUPPORTED) {
+            let bg_aabb = bg_shape.aabb(&(sm_transform.inverse() * bg_transform));
+            if !am_aaabb.intersects(&bg_aabb) {
                 false
             } else {
                 parry3d::query::distance(
@@ -108,53 +102,6 @@ impl CollisionTask<'_> {
             None
         }
     }
-}
-
-/// Parry does not support AABB as a "proper" shape so we rewrap it as mesh
-fn build_trimesh_from_aabb(aabb: Aabb) -> TriMesh {
-    let min: Point<f32> = aabb.mins;
-    let max: Point<f32> = aabb.maxs;
-    // Define the 8 vertices of the AABB
-    let vertices = vec![
-        min, // 0
-        Point::new(max.x, min.y, min.z), // 1
-        Point::new(min.x, max.y, min.z), // 2
-        Point::new(max.x, max.y, min.z), // 3
-        Point::new(min.x, min.y, max.z), // 4
-        Point::new(max.x, min.y, max.z), // 5
-        Point::new(min.x, max.y, max.z), // 6
-        max, // 7
-    ];
-
-    // Define the 12 triangles (2 for each face)
-    const INDICES: [[u32; 3]; 12] = [
-        // Bottom face (min.z)
-        [0, 1, 2],
-        [2, 1, 3],
-
-        // Top face (max.z)
-        [4, 5, 6],
-        [6, 5, 7],
-
-        // Front face (max.y)
-        [2, 3, 6],
-        [6, 3, 7],
-
-        // Back face (min.y)
-        [0, 1, 4],
-        [4, 1, 5],
-
-        // Left face (min.x)
-        [0, 2, 4],
-        [4, 2, 6],
-
-        // Right face (max.x)
-        [1, 3, 5],
-        [5, 3, 7],
-    ];
-
-    // Return TriMesh
-    TriMesh::new(vertices, INDICES.to_vec()).expect("Failed to build TrimMesh from AABB")
 }
 
 /// Struct representing the geometry of a robot, which is composed of exactly 6 joints.
